@@ -104,7 +104,10 @@ def run(ck: Check):
         one("line", b"".join(r.choice(LINE_ALPHABET) for _ in range(n)))
         one("symbol", b"".join(r.choice(alpha) for _ in range(n)), r.choice(SETS))
     cli(ck, r)
+    collapse_keeps_sets(ck)
     model = run_model(cases, shards=8)
+    from coqlit import xcheck
+    xcheck(ck, cases, model)
     for c, m, i in zip(cases, model, impl):
         if m != i:
             ck.mismatch(c.split()[1].split(":")[0], c, m, i)
@@ -147,3 +150,30 @@ def cli(ck, r):
     finally:
         os.chdir(cwd)
         shutil.rmtree(d, ignore_errors=True)
+
+
+def collapse_keeps_sets(ck):
+    """the supplied delimiter sets stay in force when minimize-collapse-brace re-splits the region"""
+    from explore import Explorer
+    ex = Explorer(ck)
+    for before, after, data in ((b"@", b",", b"a,b,{\n},X,"), (b"}", b";", b"x;{ \n};y;{\n}"), (b"]", b"[", b"[{\n\n}]a[")):
+        atom = f"symbol:{before.hex()}:{after.hex()}"
+        for v in ("Y" * 200, "YNNNNNYYYY" * 20, "Y" + "NY" * 100):
+            run1 = ex.one("minimize-collapse-brace", {}, None, data, v, atom=atom, load=True, stream="collapse-sets")
+            # the candidate proposed right after the raw write is the freshly RE-SPLIT region: its atoms must
+            # be cut at the supplied delimiters (later candidates are deletions of it, not fresh splits)
+            err, last = None, None
+            prev_w = False
+            for kind, v_ in run1.steps:
+                if kind == "P" and prev_w and not err:
+                    err = symbol_ok(v_[1], b"".join(v_[1]), before, after)
+                    last = v_
+                prev_w = kind == "W"
+            if last is None:
+                continue
+            ck.nontrivial(("collapse-sets", before, after, data, v[:4]))
+            if err and not set(before) & set(after):
+                ck.violation(f"minimize-collapse-brace with --cut-before {before!r} --cut-after {after!r}: the final "
+                             f"atoms {last[1]!r} are not cut at the supplied delimiters ({err})",
+                             {"cut_before": before.hex(), "cut_after": after.hex(), "data": data.hex(), "verdicts": v[:12]})
+    ex.diff()
